@@ -171,9 +171,47 @@ class Acc(object):
 _WORK = {}
 
 
+# optional measurement (tools/lib_coverage.py): which library lines does a check execute?  Off unless VERIF_COVER names
+# a directory; uses the COVERAGE tool id of sys.monitoring (the E3 scheduler uses the PROFILER id).
+_COVER = {'on': False, 'lines': set(), 'dumped': 0}
+
+
+def _cover_start():
+    d = os.environ.get('VERIF_COVER')
+    if not d or _COVER['on']:
+        return
+    mon = sys.monitoring
+    lib = os.path.join(os.path.realpath(REPO_SRC), 'numdifftools') + os.sep
+    try:
+        mon.use_tool_id(mon.COVERAGE_ID, 'verif-cover')
+    except ValueError:
+        pass
+
+    def cb(code, line):
+        fn = code.co_filename
+        if fn.startswith(lib) and os.sep + 'tests' + os.sep not in fn:
+            _COVER['lines'].add((os.path.basename(fn), line))
+        return mon.DISABLE
+    mon.register_callback(mon.COVERAGE_ID, mon.events.LINE, cb)
+    mon.set_events(mon.COVERAGE_ID, mon.events.LINE)
+    _COVER['on'] = True
+
+
+def _cover_dump():
+    d = os.environ.get('VERIF_COVER')
+    if not d or not _COVER['on'] or len(_COVER['lines']) == _COVER['dumped']:
+        return
+    os.makedirs(d, exist_ok=True)
+    with open(os.path.join(d, '%d.txt' % os.getpid()), 'w') as fh:
+        for f, l in sorted(_COVER['lines']):
+            fh.write('%s:%d\n' % (f, l))
+    _COVER['dumped'] = len(_COVER['lines'])
+
+
 def _worker_init():
     setup_paths()
     os.environ.setdefault('OMP_NUM_THREADS', '1')
+    _cover_start()
 
 
 def library_origin(exc):
@@ -249,6 +287,8 @@ def _run_chunk(args):
             return _library_exception_acc(prop, fn, chunk, kw)
     except BaseException:
         return ('__harness_error__', traceback.format_exc())
+    finally:
+        _cover_dump()
 
 
 class Ctx(object):
